@@ -37,7 +37,7 @@ for f, (c8, ctag, bounded, ctx, crx, tier) in FLAV.items():
   if bounded:
     emit(f"c03_{t}_{f}_send", 3, "u8", new8, cap, "false", 3, 0, 2, "G_SEND | O_TRY_RECV", unw, 0, [("m.n_full > 0", "a send reported Full"), ("m.q.len == 2", "channel full at the end")])
     emit(f"c03_{t}_{f}_sbatch", 3, "u8", new8, cap, "false", k, 0, 1, "G_SBATCH", unw, 0, [("m.n_partial > 0", "a batch was partially sent"), ("m.n_full > 0", "a batch reported Full")])
-    emit(f"c03_{t}_{f}_sbatch_mut", 3, "u8", new8, cap, "false", 1, 0, 1, "G_SBATCH_MUT", unw, 0, [("m.next > 1", "an in-place batch was submitted")])
+    emit(f"c03_t_{f}_sbatch_mut", 3, "u8", new8, cap, "false", 1, 0, 1, "G_SBATCH_MUT", unw, 0, [("m.next > 1", "an in-place batch was submitted")])
     new1 = c8.format(c=1)
     emit(f"c03_{t}_{f}_cap1", 3, "u8", new1, "Some(1)", "false", 2, 0, 2, "O_TRY_SEND | O_TRY_SEND_BATCH | O_TRY_RECV", unw, 0, [("m.n_full > 0", "a send reported Full")])
     new3 = c8.format(c=3)
